@@ -7,6 +7,7 @@ import (
 	"sync"
 	"time"
 
+	"github.com/kubewharf/kubebrain/pkg/backend/tso"
 	"github.com/kubewharf/kubebrain/pkg/server/service/leader"
 	"github.com/kubewharf/kubebrain/pkg/zzmodel"
 	"github.com/kubewharf/kubebrain/pkg/zzverif"
@@ -15,15 +16,23 @@ import (
 type vBackend struct {
 	mu   sync.Mutex
 	sets []uint64
+	rev  tso.TSO // if set: the node's real revision generator (reads are served at its committed revision)
 }
 
 func (b *vBackend) SetCurrentRevision(r uint64) {
 	b.mu.Lock()
 	b.sets = append(b.sets, r)
 	b.mu.Unlock()
+	if b.rev != nil {
+		b.rev.Commit(r)
+	}
 }
 
+// last is the revision a read issued now is served at.
 func (b *vBackend) last() uint64 {
+	if b.rev != nil {
+		return b.rev.GetRevision()
+	}
 	b.mu.Lock()
 	defer b.mu.Unlock()
 	if len(b.sets) == 0 {
@@ -91,7 +100,7 @@ func VerifC18Concurrent() {
 	})
 	_ = cur
 	le := &leader.Stub{ElectionInfo: leader.ElectionInfo{LeaderAddress: zzverif.HTTPAddr(), IsLeader: false}}
-	bes := []*vBackend{{}, {}}
+	bes := []*vBackend{{rev: tso.NewTSO()}, {}}
 	// both readers are requests on the same follower node: one syncer, one backend
 	be := bes[0]
 	s := NewRevisionSyncer(be, zzmodel.NoMetrics{}, le, nil)
